@@ -170,13 +170,21 @@ Qed.
 Definition rel_dict (st : bool) (kvs kvs' : list (pyval * pyval)) : bool :=
   Nat.eqb (length kvs) (length kvs')
   && forallb (fun kv => existsb (fun kv' => rel st (fst kv) (fst kv') && rel st (snd kv) (snd kv')) kvs') kvs.
+Definition nzc (kv : pyval * pyval) : bool := negb (is_zero (snd kv)).
+Definition strip (kvs : list (pyval * pyval)) : list (pyval * pyval) := filter nzc kvs.   (* +counter, zero counts only *)
 Definition rel_counter (st : bool) (kvs kvs' : list (pyval * pyval)) : bool :=
-  forallb (fun kv =>
-             existsb (fun kv' => rel st (fst kv) (fst kv') && rel st (snd kv) (snd kv')) kvs'
-             || (is_zero (snd kv) && negb (existsb (fun kv' => rel st (fst kv) (fst kv')) kvs'))) kvs
-  && forallb (fun kv' =>
-                existsb (fun kv => rel st (fst kv) (fst kv') && rel st (snd kv) (snd kv')) kvs
-                || (is_zero (snd kv') && negb (existsb (fun kv => rel st (fst kv) (fst kv')) kvs))) kvs'.
+  Nat.eqb (length (strip kvs)) (length (strip kvs'))
+  && forallb (fun kv =>
+                is_zero (snd kv)
+                || existsb (fun kv' => negb (is_zero (snd kv'))
+                                       && (rel st (fst kv) (fst kv') && rel st (snd kv) (snd kv'))) kvs') kvs.
+
+Lemma forallb_filter {A} (p f : A -> bool) : forall l,
+  forallb f (filter p l) = forallb (fun x => negb (p x) || f x) l.
+Proof. induction l as [|x l IH]; simpl; auto. destruct (p x); simpl; rewrite IH; reflexivity. Qed.
+Lemma existsb_filter {A} (p f : A -> bool) : forall l,
+  existsb f (filter p l) = existsb (fun x => p x && f x) l.
+Proof. induction l as [|x l IH]; simpl; auto. destruct (p x); simpl; rewrite IH; reflexivity. Qed.
 
 Lemma rel_map_unfold : forall st k kvs k' kvs',
   rel st (PMap k kvs) (PMap k' kvs') =
@@ -325,3 +333,11 @@ Proof.
 Qed.
 Lemma class_hashable : forall x c, vclass x = Some c -> py_hashable x = true.
 Proof. intros x c H. destruct x as [a| | | | |]; simpl in H; try discriminate. destruct a; simpl in *; try discriminate; auto. Qed.
+
+(* Counter equality = dict equality of the zero-stripped Counters *)
+Lemma rel_counter_strip : forall st kvs kvs', rel_counter st kvs kvs' = rel_dict st (strip kvs) (strip kvs').
+Proof.
+  intros. unfold rel_counter, rel_dict. f_equal. unfold strip. rewrite forallb_filter.
+  apply forallb_ext_in. intros kv _. unfold nzc. rewrite negb_involutive. f_equal.
+  rewrite existsb_filter. reflexivity.
+Qed.
